@@ -103,4 +103,41 @@ theorem foldl_sweepOne_get (l : List Nat) : ∀ {s : St}, WF cfg s → ∀ {k : 
   | nil => intro s _ k o hget _; exact hget
   | cons x r ih => intro s h k o hget hn; exact ih (wf_sweepOne h x) (sweepOne_get h x hget hn) hn
 
+/-- what iterating a container body hands out, in terms of its declared type -/
+theorem iterate_container {s : St} (hw : WF cfg s) (id : Nat) (o : Obj)
+    (l : List (Option Seen)) (hget : s.get id = some o) (hit : s.iterate cfg id = some l) :
+    (∀ k ety es, o.body = .seq k ety es → ∀ x ∈ l, x = some (some ety, cfg.cData)) ∧
+    (∀ k kty vty ents, o.body = .map k kty vty ents → ∀ x ∈ l, x = some (some kty, cfg.cData)) := by
+  have hb : BodyOK cfg o.body := bodyOK_of_get hw hget
+  unfold St.iterate at hit
+  rw [hget] at hit
+  simp only at hit
+  split at hit
+  · constructor
+    · intro k ety es hbody x hx
+      rw [hbody] at hit hb
+      simp only [Option.some.injEq] at hit
+      subst hit
+      obtain ⟨e, he, rfl⟩ := List.mem_map.mp hx
+      simp [seenElem, hb e he, typeOf, dataHdr]
+    · intro k kty vty ents hbody x hx
+      rw [hbody] at hit hb
+      simp only [Option.some.injEq] at hit
+      subst hit
+      obtain ⟨e, he, rfl⟩ := List.mem_map.mp hx
+      simp [seenElem, (hb e he).1, typeOf, dataHdr]
+  · cases hit
+
+theorem everySecond_mem {α : Type} (l : List α) : ∀ x ∈ everySecond l, x ∈ l := by
+  induction l using everySecond.induct with
+  | case1 => intro x hx; cases hx
+  | case2 y => intro x hx; exact hx
+  | case3 y z r ih =>
+    intro x hx
+    simp only [everySecond, List.mem_cons] at hx ⊢
+    rcases hx with hx | hx
+    · exact Or.inl hx
+    · exact Or.inr (Or.inr (ih x hx))
+
+
 end Cello.Hdr
